@@ -126,7 +126,8 @@ def gen_workload(rng, idx):
         cols = [dict(c, parsers=[], checks=[ch for ch in c["checks"] if ch["t"] == "builtin"], default=None)
                 for c in spec["columns"] if c["dtype"] in world.PL_DTYPES]
         if not cols:
-            cols = [dict(spec["columns"][0], dtype="int64", parsers=[], checks=[], default=None)]
+            cols = [{"name": "c0", "dtype": "int64", "nullable": False, "unique": False, "coerce": False, "required": True, "regex": False,
+                     "default": None, "checks": [], "parsers": []}]
         subjects.append({"backend": "polars", "kind": "dfs", "share_checks_of": 0, "columns": cols, "index": None, "checks": [], "parsers": [],
                          "dtype": None, "coerce": False, "strict": False, "ordered": False, "unique": None, "add_missing_columns": False,
                          "drop_invalid_rows": False, "name": "S2"})
